@@ -1165,7 +1165,8 @@ unsafe fn run_pair(ctx: &mut Ctx, case: &Case) -> Result<Model, (String, String)
             }
         })
         .collect();
-    let ordered = ordered && attr_keys.len() <= 1;
+    let single_attr_key = attr_keys.len() <= 1;
+    let ordered = ordered && single_attr_key;
     let mut svs: Vec<Vec<u8>> = vec![StateVector::default().encode_v1()];
     let mut snaps: Vec<Vec<u8>> = Vec::new();
     let mut stickies: Vec<Sticky> = Vec::new();
@@ -1515,7 +1516,8 @@ unsafe fn run_pair(ctx: &mut Ctx, case: &Case) -> Result<Model, (String, String)
     }
 
     // undo everything, then redo everything, step by step on both sides
-    if let Some(um) = um_t.as_mut() {
+    // (with two attribute keys in play a call may or may not leave a redundant mark, i.e. a stack item, depending on hash order)
+    if let Some(um) = um_t.as_mut().filter(|_| single_attr_key) {
         for phase in ["undo", "redo"] {
             for round in 0..(case.prog.len() + 1) {
                 let (lc, lr) = if phase == "undo" {
